@@ -364,9 +364,28 @@ def split_fields(s):
     return d
 
 
+_EXE = {}
+
+
+def harness_exe(profile="debug"):
+    """a private copy of the harness binary, so that a concurrent rebuild cannot replace it mid-run"""
+    if profile not in _EXE:
+        _EXE[profile] = vplib.private_copy(vplib.harness_bin("literal", profile))
+    return _EXE[profile]
+
+
+def cleanup():
+    for p in _EXE.values():
+        try:
+            os.remove(p)
+        except OSError:
+            pass
+    _EXE.clear()
+
+
 def run_pair(case_lines, profile="debug"):
     text = "\n".join(case_lines) + "\n"
-    rc, impl = vplib.run_lines([vplib.harness_bin("literal", profile)], text, timeout=1200)
+    rc, impl = vplib.run_lines([harness_exe(profile)], text, timeout=1200)
     if rc != 0 or len(impl) != len(case_lines):
         return None, None, "literal harness rc=%s lines=%d/%d" % (rc, len(impl), len(case_lines))
     rc, model = vplib.run_lines([vplib.OCAML_BUILD + "/lit_driver"], "\n".join(impl) + "\n", timeout=1800)
@@ -377,7 +396,7 @@ def run_pair(case_lines, profile="debug"):
 
 def spell_floats(fl, profile="debug"):
     text = "\n".join("F " + f_bits(x) for x in fl) + "\n"
-    rc, lines = vplib.run_lines([vplib.harness_bin("literal", profile), "--spell"], text, timeout=300)
+    rc, lines = vplib.run_lines([harness_exe(profile), "--spell"], text, timeout=300)
     if rc != 0 or len(lines) != len(fl):
         return None
     return [(uncps(l.split("\t")[1]), uncps(l.split("\t")[2])) for l in lines]
@@ -411,6 +430,13 @@ def judge(case, clause, exp, impl_f, oracle):
 
 
 def run(tier, seed):
+    try:
+        return run_check(tier, seed)
+    finally:
+        cleanup()
+
+
+def run_check(tier, seed):
     v = Verdict(PID, tier, seed)
     v.assumptions = [
         "a literal is a source text that the lexer returns as exactly one token of its kind (C13 owns the lexer)",
@@ -424,7 +450,7 @@ def run(tier, seed):
         v.tie_failure("prove: " + f)
     v.coverage.update(vplib.proof_coverage(
         pr, "make -C coq Properties/C14.vo && coqc Properties/C14.v (Print Assumptions) && tools/props/c14.py correspondence", TRUSTED))
-    ok, out = vplib.cargo_build("debug")
+    ok, out = vplib.cargo_build("debug", bins=["literal"])
     if not ok:
         v.tie_failure("harness build failed: " + out[-400:])
     okm, outm = vplib.ocaml_build("lit") if pr["ok"] or os.path.exists(vplib.OCAML_BUILD + "/lit_model.ml") else (False, "no extracted model")
@@ -454,15 +480,21 @@ def run(tier, seed):
             case, res, oracle = line.split("\t")
             _, clause, exp = cases[i]
             kind = case[0]
-            impl_f = split_fields(res)
             stats["cases"] += 1
+            if res in ("HANG", "CRASH"):
+                # the process hung or died on a one-literal program: a literal that does not evaluate at all
+                if exp is not None:
+                    v.violation(component="literal", input=case, text=uncps(case.split(" ")[1]), observed_at="D",
+                                impl=res, expected=exp.get("D", "a value"), clause=clause,
+                                what="evaluating the literal hangs or kills the process")
+                else:
+                    v.tie_failure("harness: %s -> %s (malformed text; outside the model)" % (case, res))
+                continue
+            impl_f = split_fields(res)
             stats[clause] += 1
             stats["by_kind"][kind] += 1
             cls = impl_f["D"].split(":")[0] if ":" in impl_f["D"] else impl_f["D"]
             stats["impl_outcomes"][kind + "/" + cls] = stats["impl_outcomes"].get(kind + "/" + cls, 0) + 1
-            if "HANG" in res or "SKIP" in res:
-                v.tie_failure("harness: %s -> %s" % (case, res))
-                continue
             fails, skipped = judge(case, clause, exp, impl_f, oracle)
             stats["not_a_literal_skipped"] += skipped
             if exp is not None and not fails:
@@ -521,9 +553,10 @@ def replay(obj):
     if not viol:
         print("replay names a broken tie, not an input:", obj.get("no_longer_checks"))
         return run("quick", obj.get("seed", 0))
-    ok, out = vplib.cargo_build("debug")
+    ok, out = vplib.cargo_build("debug", bins=["literal"])
     lines = [x["input"] for x in viol]
     impl, model, err = run_pair(lines)
+    cleanup()
     rc = 0
     for x, line in zip(viol, impl or []):
         case, res, oracle = line.split("\t")
